@@ -538,6 +538,14 @@ func TestC16(t *testing.T) {
 				return "{" + strings.Join(kv, ",") + "}"
 			}
 			paramSets = append(paramSets, obj(names, false), obj(names[:len(names)/2], false), obj(names, true), obj(names[len(names)/2:], false))
+			if placeholder {
+				// the argument struct is an implementation detail: its synthetic field names are not keys
+				for i, nm := range names {
+					if nm == "" || nm == "-" {
+						paramSets = append(paramSets, fmt.Sprintf(`{"P_%d":%s}`, i+1, sample[ts[i]][0]), fmt.Sprintf(`{"p_%d":%s}`, i+1, sample[ts[i]][0]), fmt.Sprintf(`{"-":%s}`, sample[ts[i]][0]), fmt.Sprintf(`{"":%s}`, sample[ts[i]][0]))
+					}
+				}
+			}
 			for _, ps := range paramSets {
 				text := fmt.Sprintf(`{"jsonrpc":"2.0","id":1,"method":"m","params":%s}`, ps)
 				prs, e := jrpc2.ParseRequests([]byte(text))
